@@ -44,7 +44,7 @@ func SingleInitializer(p StandardCodeFormat, a Argument) (Instructions, Register
 	argumentStart := uint32(1<<32 - ZZ - ZI)
 	// argumentEnd := argumentStart + uint32(len(a))
 	argumentEnd := argumentStart + uint32(len(a))
-	argumentPadding := argumentEnd + P(len(a))
+	argumentPadding := argumentStart + P(len(a))
 
 	mem := Memory{
 		Pages:       make(map[uint32]*Page),
